@@ -286,10 +286,21 @@ func ParsePipe(match string) ([]*PipeSelector, error) {
 	return slice, nil
 }
 
+func isFunctionName(name string) bool {
+	for _, r := range name {
+		if r != '_' && (r < '0' || r > '9') && (r < 'a' || r > 'z') && (r < 'A' || r > 'Z') {
+			return false
+		}
+	}
+	return true
+}
+
 func ParseSelector(selector string) ([]any, error) {
 	functions := strings.SplitN(selector, "=>", 2)
 	slice := make([]any, 0)
-	if len(functions) == 2 {
+	// `name=>` is a function arrow only in front of the selector: a `=>` inside
+	// brackets (data[keep=>0]) or inside a quoted key belongs to the selector
+	if len(functions) == 2 && isFunctionName(functions[0]) {
 		selector = functions[1]
 		slice = append(slice, TopLevelFunctionSelector(functions[0]))
 	}
